@@ -17,14 +17,17 @@ import (
 //	guard lhs rhs   `if lhs > rhs { return … error … }`
 //	check call      `if err := call; err != nil { return err }`
 //	pure text       a statement without an observable effect (assignment, encoding, lock, error check, other tests)
-//	effect name     a statement that delivers, queues, sends, registers or advances a clock
+//	clock name      a statement whose only side effect is a step of one of the node's Lamport clocks
+//	                (Increment / Witness on s.clock, s.eventClock, s.queryClock), also when the call sits
+//	                inside the message literal; NOT an observable effect in the sense of C33
+//	effect name     a statement that delivers, queues, sends or registers (observable by the application or the network)
 //	ret             a plain return
 //
 // Observable effects are recognised by the callee's name; every other call must be on
 // the list of known effect-free callees, otherwise the generator fails (loudly).
 
 var limEffects = map[string]bool{
-	"Increment": true, "handleUserEvent": true, "handleQuery": true, "QueueBroadcast": true,
+	"handleUserEvent": true, "handleQuery": true, "QueueBroadcast": true,
 	"registerQueryResponse": true, "SendToAddress": true, "relayResponse": true, "respondWithMessageAndResponse": true,
 }
 
@@ -53,15 +56,38 @@ func calleeName(c *ast.CallExpr) string {
 	return "?"
 }
 
-// scanEffects lists the effect callees inside n and rejects unknown calls, sends and go statements.
+// clockCall recognises <recv>.<xClock>.Increment() / .Witness(…) and returns "<xClock>.<method>".
+func clockCall(c *ast.CallExpr) (string, bool) {
+	sel, ok := c.Fun.(*ast.SelectorExpr)
+	if !ok || (sel.Sel.Name != "Increment" && sel.Sel.Name != "Witness") {
+		return "", false
+	}
+	inner, ok := sel.X.(*ast.SelectorExpr)
+	if !ok {
+		return "", false
+	}
+	n := inner.Sel.Name
+	if n != "clock" && n != "eventClock" && n != "queryClock" {
+		return "", false
+	}
+	return n + "." + sel.Sel.Name, true
+}
+
+var limClocks []string // clock steps found by the last scanEffects call
+
+// scanEffects lists the effect callees inside n (and, in limClocks, the Lamport clock steps) and
+// rejects unknown calls, sends and go statements.
 func scanEffects(n ast.Node) (effects []string, err error) {
+	limClocks = nil
 	ast.Inspect(n, func(x ast.Node) bool {
 		switch v := x.(type) {
 		case *ast.FuncLit:
 			return false // a closure passed as an argument runs later, under its callee's name
 		case *ast.CallExpr:
 			name := calleeName(v)
-			if limEffects[name] {
+			if ck, ok := clockCall(v); ok {
+				limClocks = append(limClocks, ck)
+			} else if limEffects[name] {
 				effects = append(effects, name)
 			} else if !limPureCalls[name] {
 				// conversions to named types / composite helper constructors
@@ -96,6 +122,8 @@ func (s limStep) lean() string {
 		return fmt.Sprintf(".pure %s", limQuote(s.a))
 	case "effect":
 		return fmt.Sprintf(".effect %s %s", limQuote(s.a), limQuote(s.b))
+	case "clock":
+		return fmt.Sprintf(".clock %s %s", limQuote(s.a), limQuote(s.b))
 	}
 	return ".ret"
 }
@@ -146,27 +174,38 @@ func limSteps(fset *token.FileSet, fd *ast.FuncDecl) ([]limStep, error) {
 						if _, err := scanEffects(c); err != nil {
 							return nil, fmt.Errorf("%s: %v", fd.Name.Name, err)
 						}
+						if len(limClocks) > 0 {
+							return nil, fmt.Errorf("%s: clock step inside a checked call", fd.Name.Name)
+						}
 						out = append(out, limStep{"check", limText(fset, c), ""})
 					}
 					continue
 				}
 			}
 			effs, err := scanEffects(v)
+			if err == nil {
+				err = mixedErr(fd.Name.Name, effs)
+			}
 			if err != nil {
 				return nil, fmt.Errorf("%s: %v", fd.Name.Name, err)
 			}
 			if len(effs) > 0 {
 				out = append(out, limStep{"effect", strings.Join(effs, "+"), limText(fset, v.Cond)})
 			} else {
-				out = append(out, limStep{"pure", "if " + limText(fset, v.Cond), ""})
+				out = append(out, pureOrClock("if "+limText(fset, v.Cond)))
 			}
 		case *ast.ReturnStmt:
 			effs, err := scanEffects(v)
+			if err == nil {
+				err = mixedErr(fd.Name.Name, effs)
+			}
 			if err != nil {
 				return nil, fmt.Errorf("%s: %v", fd.Name.Name, err)
 			}
 			if len(effs) > 0 {
 				out = append(out, limStep{"effect", strings.Join(effs, "+"), ""})
+			} else if len(limClocks) > 0 {
+				out = append(out, pureOrClock(limText(fset, v)))
 			}
 			out = append(out, limStep{"ret", "", ""})
 		case *ast.ExprStmt:
@@ -175,16 +214,22 @@ func limSteps(fset *token.FileSet, fd *ast.FuncDecl) ([]limStep, error) {
 				return nil, fmt.Errorf("%s: expression statement %s", fd.Name.Name, limText(fset, v))
 			}
 			effs, err := scanEffects(v)
+			if err == nil {
+				err = mixedErr(fd.Name.Name, effs)
+			}
 			if err != nil {
 				return nil, fmt.Errorf("%s: %v", fd.Name.Name, err)
 			}
 			if len(effs) > 0 {
 				out = append(out, limStep{"effect", calleeName(c), limArgs(fset, c)})
 			} else {
-				out = append(out, limStep{"pure", limText(fset, v), ""})
+				out = append(out, pureOrClock(limText(fset, v)))
 			}
 		case *ast.AssignStmt, *ast.DeclStmt, *ast.DeferStmt, *ast.ForStmt, *ast.RangeStmt:
 			effs, err := scanEffects(v)
+			if err == nil {
+				err = mixedErr(fd.Name.Name, effs)
+			}
 			if err != nil {
 				return nil, fmt.Errorf("%s: %v", fd.Name.Name, err)
 			}
@@ -210,13 +255,28 @@ func limSteps(fset *token.FileSet, fd *ast.FuncDecl) ([]limStep, error) {
 				if len(txt) > 160 {
 					txt = txt[:160]
 				}
-				out = append(out, limStep{"pure", txt, ""})
+				out = append(out, pureOrClock(txt))
 			}
 		default:
 			return nil, fmt.Errorf("%s: statement of unexpected kind %T", fd.Name.Name, st)
 		}
 	}
 	return out, nil
+}
+
+// pureOrClock: the statement has no observable effect; it is a clock step when scanEffects saw one.
+func pureOrClock(txt string) limStep {
+	if len(limClocks) > 0 {
+		return limStep{"clock", strings.Join(limClocks, "+"), txt}
+	}
+	return limStep{"pure", txt, ""}
+}
+
+func mixedErr(fn string, effs []string) error {
+	if len(effs) > 0 && len(limClocks) > 0 {
+		return fmt.Errorf("%s: one statement both steps a clock (%v) and has an observable effect (%v): order not representable", fn, limClocks, effs)
+	}
+	return nil
 }
 
 func limArgs(fset *token.FileSet, c *ast.CallExpr) string {
